@@ -216,7 +216,7 @@ def run(ctx):
         if style == 'v1':
             pkg.build_v1(pd, truth, table_order=list(rng.permutation(n_m)), desc=rng.random(n_m) < 0.5, fmt='D')
         else:
-            pkg.build_v2(pd, truth, descending_wav=bool(rng.random() < 0.5))
+            pkg.build_v2(pd, truth, descending_wav=bool(rng.random() < 0.5), unit=str(rng.choice(['mJy', 'Jy', 'uJy'])))
         filters = []
         for jf in range(int(rng.integers(1, 4))):
             fw, resp, central, kind = convcheck.make_filter_arrays(rng, truth.wav)
